@@ -1072,8 +1072,8 @@ fn positions(ex: &Exec, opname: &str, quick: bool, rng: &mut ChaChaRng) -> Vec<u
     let (cap_w, cap_r, interior) = match (quick, heavy) {
         (true, true) => (50, 15, 48),
         (true, false) => (120, 50, 64),
-        (false, true) => (700, 250, 500),
-        (false, false) => (2500, 1500, 1500),
+        (false, true) => (500, 200, 400),
+        (false, false) => (1500, 800, 1000),
     };
     // every distinct statement text of the operation: the first step of its first and of its last
     // execution, and a step in the middle of the first
